@@ -154,6 +154,22 @@ class ValidIdx:
                     # and this range feeds the next() whose payload e is
                     return True
             return False
+        # index half of an `.iter().enumerate()` element over a family vector
+        eu = unload(e)
+        if eu[0] == 'fld' and eu[3] == '0' and isinstance(eu[1], tuple) and eu[1] and eu[1][0] in ('fld', 'pick'):
+            inner = unload(eu[1])
+            if inner[0] == 'fld' and inner[3] == '0' and inner[1][0] == 'var' and inner[1][2] == 'Some':
+                nx = unload(inner[1][1])
+                if is_call(nx, 'Iterator>::next') and 'Enumerate' in nx[1]:
+                    it = nx[2][0]
+                    itl = it[1][1] if it[0] == 'ref' and it[1][0] == 'local' else None
+                    if itl is not None:
+                        dv = [fa.def_value(itl, bb, kk) for (bb, kk, part) in fa.defs().get(itl, [])]
+                        fam = family(self.prog)
+                        if len(dv) == 1 and contains(dv[0], lambda x: is_call(x, 'Iterator::enumerate')) and \
+                                contains(dv[0], lambda x: isinstance(x, tuple) and x and x[0] == 'fld' and x[3] in fam and x[2].endswith('Framework')) and \
+                                not contains(dv[0], lambda x: is_call(x, '::skip') or is_call(x, '::rev') or is_call(x, '::step_by') or is_call(x, '::chain')):
+                            return True
         # AllExcept payload of a taken signal
         if contains(e, lambda x: isinstance(x, tuple) and x and x[0] == 'var' and x[2] == 'AllExcept'):
             v = self.allexcept_valid
